@@ -141,7 +141,17 @@ def replay_and_validate(ctx, exe, batches, tracespec, env_flags, label="b", jobs
             return {"i": i, "infra": "replayer timed out on " + script}
         if p.returncode != 0:
             return {"i": i, "infra": "replayer failed rc=%d on %s: %s" % (p.returncode, script, p.stderr[-500:])}
-        nlines = sum(1 for _ in open(trace))
+        nlines, nexc, ncrash = 0, 0, 0
+        for tl in open(trace):
+            nlines += 1
+            if '"exception":' in tl:
+                nexc += 1
+            if '"e":"crash"' in tl:
+                ncrash += 1
+        if ncrash:
+            return {"i": i, "infra": "the replayer crashed (std::terminate) while executing %s" % script}
+        if nexc:
+            return {"i": i, "infra": "%d calls threw an unexpected exception while executing %s (harness or script defect)" % (nexc, script)}
         if nlines != len(cmds):
             return {"i": i, "infra": "trace truncated: %d lines for %d commands (%s)" % (nlines, len(cmds), script)}
         r = validate_trace(ctx, tracespec, trace, outj, env_flags, tlc_timeout, heap)
